@@ -14,6 +14,7 @@ pub fn base_spec(workers: u32, rule: &str, assumptions: &[&str], timeout_s: u64)
         property: String::new(), tier: Tier::Quick, seed: 1, workers,
         rule: rule.to_string(), level: "exploration",
         assumptions: assumptions.iter().map(|s| s.to_string()).collect(), timeout_s,
+        case_limit_s: 120, hang_is_violation: false,
     }
 }
 
@@ -32,8 +33,9 @@ pub mod c16;
 pub mod c17;
 pub mod c18;
 pub mod c19;
+pub mod c20;
 
-pub const ALL: &[&str] = &["C01", "C02", "C03", "C04", "C05", "C09", "C10", "C11", "C14", "C15", "C16", "C17", "C18", "C19"];
+pub const ALL: &[&str] = &["C01", "C02", "C03", "C04", "C05", "C09", "C10", "C11", "C14", "C15", "C16", "C17", "C18", "C19", "C20"];
 
 pub fn lookup(id: &str) -> Option<Prop> {
     match id {
@@ -51,6 +53,7 @@ pub fn lookup(id: &str) -> Option<Prop> {
         "C17" => Some(Prop { id: "C17", spec: c17::spec, run: c17::run, replay: c17::replay }),
         "C18" => Some(Prop { id: "C18", spec: c18::spec, run: c18::run, replay: c18::replay }),
         "C19" => Some(Prop { id: "C19", spec: c19::spec, run: c19::run, replay: c19::replay }),
+        "C20" => Some(Prop { id: "C20", spec: c20::spec, run: c20::run, replay: c20::replay }),
         _ => None,
     }
 }
